@@ -61,6 +61,8 @@ func (j *jsonCodec) HandleRead(ctx netty.InboundContext, message netty.Message) 
 	// decode to map
 	var object = make(map[string]interface{})
 	utils.Assert(jsonDecoder.Decode(&object))
+	// a top-level null decodes "successfully" into a nil map: that is not an object
+	utils.AssertIf(nil == object, "json: top-level value is null, not an object")
 
 	// post object
 	ctx.HandleRead(object)
